@@ -125,14 +125,6 @@ Section Walk.
     : list (bool * list action) :=
     flat_map (visits_node prefix rel) children.
 
-  (* non-recursive runs stop after the first processed directory *)
-  Fixpoint through_first_processed (vs : list (bool * list action)) : list action :=
-    match vs with
-    | [] => []
-    | (true, acts) :: _ => acts
-    | (false, acts) :: r => acts ++ through_first_processed r
-    end.
-
   Fixpoint cut_at_abort (acts : list action) : list action :=
     match acts with
     | [] => []
@@ -152,8 +144,11 @@ Section Walk.
                            ++ doc_actions (ws_prefix st) base [] base content)
          | KDir children =>
              let prefix := match ws_prefix st with Some p => p | None => base end in
-             let vs := visit_dir prefix [] children :: visits prefix [] children in
-             cut_at_abort (if ws_recursive st then flat_map snd vs else through_first_processed vs)
+             let top := visit_dir prefix [] children in
+             (* without --recursive only the input directory itself is visited *)
+             cut_at_abort (if ws_recursive st
+                           then flat_map snd (top :: visits prefix [] children)
+                           else snd top)
          end.
 
 End Walk.
